@@ -255,6 +255,14 @@ func frameObligations(p *Program, x *Exec, fi *FuncInfo, fc *FuncContract) {
 			o.Output = "the body (or a callee) may write through the receiver or a pointer/map parameter"
 		}
 	}
+	if fc.Flags["recvreadonly"] {
+		o := w.Oblige(x.oblName("frame:recvreadonly", ""), "frame", True, True)
+		o.Preset, o.Solver, o.Result = true, "frame-analysis", "unsat"
+		if !p.IsRecvReadonly(fi) {
+			o.Result = "sat"
+			o.Output = "the body (or a callee) may write through the receiver"
+		}
+	}
 	if fc.Flags["noalias"] {
 		o := w.Oblige(x.oblName("frame:noalias", ""), "frame", True, True)
 		o.Preset, o.Solver, o.Result = true, "alias-rules", "unsat"
